@@ -58,11 +58,11 @@ func PathFor(in interface{}) (string, error) {
 	k := to.Kind()
 	switch k {
 	case reflect.Struct:
-		f := rv.FieldByName("Slug")
+		f := fieldByName(rv, "Slug")
 		if f.IsValid() {
 			return byField(ni, f)
 		}
-		f = rv.FieldByName("ID")
+		f = fieldByName(rv, "ID")
 		if f.IsValid() {
 			return byField(ni, f)
 		}
@@ -84,6 +84,29 @@ func PathFor(in interface{}) (string, error) {
 	}
 
 	return "", fmt.Errorf("could not convert %T to path", in)
+}
+
+// fieldByName is rv.FieldByName, except that a field promoted through a nil
+// embedded pointer is not there (reflect panics on it).
+func fieldByName(rv reflect.Value, name string) reflect.Value {
+	sf, ok := rv.Type().FieldByName(name)
+	if !ok {
+		return reflect.Value{}
+	}
+
+	for _, i := range sf.Index {
+		if rv.Kind() == reflect.Ptr {
+			if rv.IsNil() {
+				return reflect.Value{}
+			}
+
+			rv = rv.Elem()
+		}
+
+		rv = rv.Field(i)
+	}
+
+	return rv
 }
 
 func byField(ni name.Ident, f reflect.Value) (string, error) {
